@@ -261,6 +261,13 @@ fn run_history(ops: &[ROp], sched: &[usize], istrings: &[String], replica: usize
                 let x = join(&mut eg, &small);
                 let y = join(&mut eg, &big);
                 eg.union(&x, &y);
+                // ... and in a language whose operators are spelled like the history's but take their payloads elsewhere
+                let mut sh = EGraph::<crate::langs::Shadow>::default();
+                for t in ["(call f (var $z))", "(call f x)", "(add f (var $z))", "(add f x)", "(mul (var $z) f)", "(mul x f)", "(app f x)"] {
+                    let re = RecExpr::<crate::langs::Shadow>::parse(t).unwrap();
+                    assert_eq!(re.to_string(), t);
+                    sh.add_expr(re);
+                }
             }
             k += 1;
             tx_ack.send(()).unwrap();
